@@ -551,6 +551,42 @@ def run_paths(case, part):
             part.violation("C09/not-reflexive/object-path", "a pattern is not reported equivalent to itself", c, True, False)
 
 
+# ---- Q: qualifier values (exact-value oracle) ---------------------------------------------------------------------------
+def qualifier_patterns():
+    base = ("obs", "AND", (X, Y))
+    out = []
+    for w in (2, 2.0, 2.2, 2.5, 0.5, 0.25, 3, 2.0000000000000004):
+        out.append((A.to_text(("qual", ("WITHIN", w), base)), ("within", float(w))))
+    for n in (1, 2, 3, 20):
+        out.append((A.to_text(("qual", ("REPEATS", n), base)), ("repeats", n)))
+    for a, b in ((BASE_T, BASE_T + 2 * SEC), (BASE_T, BASE_T + 3 * SEC), (BASE_T + SEC, BASE_T + 2 * SEC), (BASE_T, BASE_T + 2 * SEC + 1000 * A.tsfmt.PS_PER_US)):
+        out.append((A.to_text(("qual", ("STARTSTOP", a, b), base)), ("startstop", a, b)))
+    out.append((A.to_text(base), ("none",)))
+    return out
+
+
+def run_qualifiers(case, part):
+    """all ordered pairs: the same compound expression under two qualifiers is equivalent exactly when the qualifiers carry the same value"""
+    env.reset()
+    pats = qualifier_patterns()
+    i = case["row"]
+    ti, di = pats[i]
+    part.state(("Q", ti), nontrivial=True)
+    for j, (tj, dj) in enumerate(pats):
+        part.evaluations += 1
+        part.transitions += 1
+        r, err = call_eq(ti, tj)
+        c = {"kind": "qualifiers", "row": i, "p": ti, "q": tj}
+        if err:
+            part.violation("C09/raises/%s/qualifier" % err, "the equivalence test fails on syntactically valid patterns", c, "a boolean", err)
+            continue
+        part.outcome("equivalent" if r == "1" else "different")
+        if r == "1" and di != dj:
+            part.violation("C09/unsound/qualifier-values/%s" % di[0], "the same expression under qualifiers with different values is reported equivalent", c, "different", "equivalent")
+        if r == "0" and i == j:
+            part.violation("C09/not-reflexive/qualifier", "a pattern is not reported equivalent to itself", c, True, False)
+
+
 # ---- M: several object types in one pattern (find_equivalent_patterns vs pairwise on EVERY pair) ---------------
 def multi_type_patterns():
     a, b, c = (("cmp", "=", False, ("path", t, (("key", "p"),)), I(1)) for t in ("aa-a", "bb-b", "cc-c"))
@@ -618,6 +654,8 @@ def run_case(case, part):
         return run_multitype(case, part)
     if case["kind"] == "paths":
         return run_paths(case, part)
+    if case["kind"] == "qualifiers":
+        return run_qualifiers(case, part)
     return run_rewrites(case, part)
 
 
@@ -763,6 +801,8 @@ def run(run):
         cases.append({"kind": "multitype", "row": i})
     for i in range(len(path_patterns())):
         cases.append({"kind": "paths", "row": i})
+    for i in range(len(qualifier_patterns())):
+        cases.append({"kind": "qualifiers", "row": i})
     # the same rewrite instances once more, each chunk after a warm-up of 600 ordinary comparisons in the same process: the answer must not depend on
     # how much the process has already compared
     cases += [{"kind": "rewrites", "lo": lo, "hi": lo + 50, "thorough": th, "phase": "late"} for lo in range(0, nrw, 50)]
